@@ -94,13 +94,12 @@ class SpecArray(object):
     @property
     def dd(self):
         """Direction resolution float."""
-        if self._dd is not None:
-            return self._dd
         if self.dir is not None and len(self.dir) > 1:
-            self._dd = abs(float(self.dir[1] - self.dir[0]))
+            # spacing of the direction grid, wherever the stored sequence starts
+            dirs = np.sort(self.dir.values)
+            return abs(float(dirs[1] - dirs[0]))
         else:
-            self._dd = 1.0
-        return self._dd
+            return 1.0
 
     @property
     def partition(self):
